@@ -396,7 +396,7 @@ func ruleQ8Q10(c *an.Ctx) {
 	c.Floor("Q9", "loops in the retain formatters", n9, 2)
 	// Q10
 	n10 := 0
-	// the format methods and the free helper functions they call (hasComments(exp) ...)
+	// the format methods and the helper functions / predicate methods they call (hasComments ...)
 	var q10fns []*ssa.Function
 	q10seen := map[*ssa.Function]bool{}
 	for _, fn := range p.FuncsOf(pkgSyntax) {
@@ -407,7 +407,7 @@ func ruleQ8Q10(c *an.Ctx) {
 		q10fns = append(q10fns, fn)
 		an.Instrs(fn, func(in ssa.Instruction) {
 			if cl := an.AsCallAny(in); cl != nil {
-				if h := cl.Common().StaticCallee(); h != nil && h.Blocks != nil && h.Pkg == fn.Pkg && h.Signature.Recv() == nil && !q10seen[h] {
+				if h := cl.Common().StaticCallee(); h != nil && h.Blocks != nil && h.Pkg == fn.Pkg && h.Name() != "format" && !q10seen[h] {
 					q10seen[h] = true
 					q10fns = append(q10fns, h)
 				}
